@@ -75,6 +75,21 @@ func answer(q string) (res string) {
 		if j < 0 {
 			return "err:cast-syntax"
 		}
+		if r := arg[j+1:]; strings.HasPrefix(r, "[") || strings.HasPrefix(r, "{") {
+			// the conversion package converts no list or map: the zero value of the target type
+			// (also for a value that contains itself, which has no finite rendering)
+			switch arg[:j] {
+			case "bool":
+				return okHex(render(false))
+			case "int":
+				return okHex(render(int64(0)))
+			case "float":
+				return okHex(render(float64(0)))
+			case "str":
+				return okHex(render(""))
+			}
+			return "err:cast-kind"
+		}
 		p := &vparser{s: arg[j+1:]}
 		v := p.value(nil)
 		if p.bad {
@@ -192,6 +207,12 @@ func answer(q string) (res string) {
 		}
 		// the time engine on its own (Go's time package through the documented template names and
 		// precisions), not the repository's DateFormatHandle: that glue is code under test
+		switch v.(type) {
+		case []any, map[string]any:
+			// (not handed to the conversion package: its error text formats the value, which never ends
+			// for a value that contains itself)
+			return "err:not-an-integer"
+		}
 		n, err := conv.ToInt64E(v)
 		if err != nil {
 			return "err:not-an-integer"
@@ -313,6 +334,11 @@ func answer(q string) (res string) {
 			v := p.value(nil)
 			if p.bad {
 				return "err:render-syntax"
+			}
+			if strings.Contains(r, "^") {
+				// a value that contains itself has no finite text (strings are rendered in hexadecimal:
+				// the marker cannot be part of one)
+				return "err:contains-itself"
 			}
 			vals = append(vals, v)
 		}
